@@ -15,7 +15,7 @@ fn main() {
     run.assume("results are compared by value; the representation of the root is not constrained");
 
     // S1 small-scope grid
-    let nmax: usize = tier.pick(3000, 30000);
+    let nmax: usize = tier.pick(3000, 200_000);
     let pmax: u64 = tier.pick(8, 12);
     run.bound("S1_unscaled", format!("1..={}", nmax));
     run.bound("S1_scales", "-6..=6");
